@@ -72,6 +72,68 @@ pub fn single_const(t: &TplLitType) -> Option<&str> {
     }
 }
 
+/// membership of a string in a template literal type (backtracking over the items; `${number}` is
+/// read the way beff emits it: digits with an optional fraction)
+pub fn tpl_member(items: &[TplLitTypeItem], s: &str) -> bool {
+    match items.split_first() {
+        None => s.is_empty(),
+        Some((first, rest)) => match first {
+            TplLitTypeItem::StringConst(c) => s.starts_with(c.as_str()) && tpl_member(rest, &s[c.len()..]),
+            TplLitTypeItem::String => (0..=s.len()).filter(|i| s.is_char_boundary(*i)).any(|i| tpl_member(rest, &s[i..])),
+            TplLitTypeItem::Boolean => ["true", "false"].iter().any(|b| s.starts_with(b) && tpl_member(rest, &s[b.len()..])),
+            TplLitTypeItem::Number => {
+                let b = s.as_bytes();
+                let mut i = 0;
+                while i < b.len() && b[i].is_ascii_digit() {
+                    i += 1;
+                    if tpl_member(rest, &s[i..]) {
+                        return true;
+                    }
+                    // optional fraction after this many integer digits
+                    if i < b.len() && b[i] == b'.' {
+                        let mut j = i + 1;
+                        while j < b.len() && b[j].is_ascii_digit() {
+                            j += 1;
+                            if tpl_member(rest, &s[j..]) {
+                                return true;
+                            }
+                        }
+                    }
+                }
+                false
+            }
+            TplLitTypeItem::OneOf(alts) => alts.iter().any(|a| {
+                let mut v = vec![a.clone()];
+                v.extend(rest.iter().cloned());
+                tpl_member(&v, s)
+            }),
+        },
+    }
+}
+
+/// a few member strings of a template (for probing)
+pub fn tpl_samples(items: &[TplLitTypeItem]) -> Vec<String> {
+    let mut acc = vec![String::new()];
+    for it in items {
+        let alts: Vec<String> = match it {
+            TplLitTypeItem::StringConst(c) => vec![c.clone()],
+            TplLitTypeItem::String => vec!["".into(), "zz".into()],
+            TplLitTypeItem::Number => vec!["7".into(), "1.5".into()],
+            TplLitTypeItem::Boolean => vec!["true".into()],
+            TplLitTypeItem::OneOf(a) => a.iter().flat_map(|x| tpl_samples(std::slice::from_ref(x))).take(3).collect(),
+        };
+        let mut next = vec![];
+        for a in &acc {
+            for b in &alts {
+                next.push(format!("{}{}", a, b));
+            }
+        }
+        next.truncate(8);
+        acc = next;
+    }
+    acc
+}
+
 fn lookup<'a>(defs: &'a Defs, n: &RuntypeUUID) -> R<&'a Runtype> {
     defs.get(n).ok_or_else(|| Unsupported(format!("dangling-ref:{:?}", n.ty)))
 }
@@ -113,9 +175,9 @@ pub fn rt_open(t: &Runtype, defs: &Defs, v: &Value) -> R<bool> {
         RuntypeKind::AnyArrayLike => matches!(v, Value::Arr(_)),
         RuntypeKind::BigInt => *v == Value::Tag(SubTypeTag::BigInt.code()),
         RuntypeKind::Date => *v == Value::Tag(SubTypeTag::Date.code()),
-        RuntypeKind::TplLitType(tpl) => match single_const(tpl) {
-            Some(s) => matches!(v, Value::Str(x) if x == s),
-            None => return unsup("template"),
+        RuntypeKind::TplLitType(tpl) => match v {
+            Value::Str(x) => tpl_member(&tpl.0, x),
+            _ => false,
         },
         RuntypeKind::Const(RuntypeConst::Bool(b)) => *v == Value::Bool(*b),
         RuntypeKind::Const(RuntypeConst::Number(n)) => matches!(v, Value::Num(x) if N::parse_int(*x) == *n),
@@ -459,6 +521,8 @@ impl Lits {
             RuntypeKind::TplLitType(tpl) => {
                 if let Some(s) = single_const(tpl) {
                     self.strs.insert(s.to_string());
+                } else {
+                    self.strs.extend(tpl_samples(&tpl.0));
                 }
             }
             RuntypeKind::Object { vs, indexed_properties } => {
@@ -743,7 +807,10 @@ impl<'a> Enumerator<'a> {
             RuntypeKind::String => self.lits.strs.iter().map(|s| Value::Str(s.clone())).chain(std::iter::once(Value::Str(FRESH_STR.to_string()))).collect(),
             RuntypeKind::TplLitType(t) => match single_const(t) {
                 Some(s) => vec![Value::Str(s.to_string())],
-                None => return unsup("template"),
+                None => {
+                    self.truncated = true; // samples only
+                    tpl_samples(&t.0).into_iter().map(Value::Str).collect()
+                }
             },
             RuntypeKind::Never => vec![],
             RuntypeKind::Object { .. } | RuntypeKind::Array(_) | RuntypeKind::Tuple { .. } | RuntypeKind::AnyArrayLike => vec![], // mixed with a different kind: empty
@@ -787,6 +854,10 @@ pub fn st_member(t: &SemType, ctx: &SemTypeContext, v: &Value) -> R<bool> {
     if (t.all & tag.code()) != 0 {
         return Ok(true);
     }
+    // `undefined` stands for "nothing here" as well (it is what OptionalProp is materialised as)
+    if *v == Value::Absent && (t.all & SubTypeTag::VoidUndefined.code()) != 0 {
+        return Ok(true);
+    }
     for s in &t.subtype_data {
         match (s.as_ref(), v) {
             (ProperSubtype::Boolean(b), Value::Bool(x)) => return Ok(b == x),
@@ -808,14 +879,11 @@ pub fn st_member(t: &SemType, ctx: &SemTypeContext, v: &Value) -> R<bool> {
                 let mut found = false;
                 for val in values {
                     match val {
-                        StringLitOrFormat::Tpl(tpl) => match single_const(tpl) {
-                            Some(s) => {
-                                if s == x {
-                                    found = true;
-                                }
+                        StringLitOrFormat::Tpl(tpl) => {
+                            if tpl_member(&tpl.0, x) {
+                                found = true;
                             }
-                            None => return unsup("template"),
-                        },
+                        }
                         StringLitOrFormat::Format(_) => return unsup("string-format"),
                     }
                 }
